@@ -517,3 +517,54 @@ Definition seg_consistent_b (img : list Z) : bool :=
                         match str_at (seg_strtab s img) (snd e) with Some _ => true | None => false end)
               (si_entries s)
   end.
+
+(* ---------- one object under a history of calls: the reference ----------
+   The dynamic array is a fixed list; a tag walk is a cursor into it, every other question
+   is a function of the list.  Nothing a caller does in between changes any answer. *)
+From PV Require Import Base.Outcome.
+Inductive hop := HStart (ty : option string) | HNext (i : nat) | HNumTags | HGetTag (n : Z).
+Inductive hans (A : Type) :=
+| AStarted | ATag (t : A) | AStop | ANum (n : Z) | AErr (e : err) | ANoWalk.
+Arguments AStarted {A}. Arguments ATag {A} t. Arguments AStop {A}. Arguments ANum {A} n.
+Arguments AErr {A} e. Arguments ANoWalk {A}.
+
+Fixpoint set_nth {A} (l : list A) (i : nat) (x : A) : list A :=
+  match l, i with
+  | [], _ => []
+  | _ :: r, O => x :: r
+  | y :: r, S k => y :: set_nth r k x
+  end.
+
+Section ref.
+Variable A : Type.
+Variable tmatch : option string -> A -> bool.      (* tag['d_tag'] == type, or no filter *)
+Variable ts : list A.                              (* the entries up to and including DT_NULL *)
+
+Fixpoint first_match (ty : option string) (l : list A) : option (A * list A) :=
+  match l with
+  | [] => None
+  | x :: r => if tmatch ty x then Some (x, r) else first_match ty r
+  end.
+
+Definition rstep (ws : list (option string * list A)) (op : hop) : list (option string * list A) * hans A :=
+  match op with
+  | HStart ty => (ws ++ [(ty, ts)], AStarted)
+  | HNext i =>
+      match nth_error ws i with
+      | None => (ws, ANoWalk)
+      | Some (ty, rest) =>
+          match first_match ty rest with
+          | Some (x, r) => (set_nth ws i (ty, r), ATag x)
+          | None => (set_nth ws i (ty, []), AStop)
+          end
+      end
+  | HNumTags => (ws, ANum (zlen ts))
+  | HGetTag n =>
+      (ws, match nthz ts n with Some t => ATag t | None => AErr (EPy "IndexError") end)
+  end.
+Fixpoint rrun (ws : list (option string * list A)) (ops : list hop) : list (hans A) :=
+  match ops with
+  | [] => []
+  | op :: r => let (ws', a) := rstep ws op in a :: rrun ws' r
+  end.
+End ref.
